@@ -45,6 +45,14 @@ CHECKS['C09'] = dict(level='exploration', design='6/C09',
     technique='property-based testing (Hypothesis): set equality (two-sided bounds) against a definitional alt-translation digest by the independent model; every header entry replayed as a witness (named SECT / W2F events alone reproduce the peptide)',
     text='For generated references with selenoprotein transcripts, W-rich CDSs and NF tags, and the three flag combinations, the callAltTranslation FASTA must equal the model set: products of the annotated translation that arise only through termination at an annotated Sec codon and/or W>F substitution, minus plain products and the canonical pool; each header entry must name a coding transcript and events that alone reproduce the peptide.',
     note='Same L/U gaps as C08 plus the Met-removed twin of a cds_start_NF translation that happens to start with M (permitted, not demanded). Open finding C09-sect-open-tail (SECT peptides in the trailing segment of mRNA_end_NF transcripts are not reported) is tolerated by a structural signature only.')
+CHECKS['C05'] = dict(level='exploration', design='6/C05',
+    technique='property-based testing (Hypothesis): metamorphic relation between paired callVariant runs ordered by permissiveness (subset + attribution of every added peptide)',
+    text='Pairs of runs on one generated input (up to ~25 records on up to 9 transcripts incl. AS, fusion, circRNA; complexity limits disabled, no enumeration needed): relaxing a limit, enabling SECT/W2F/coding-novel-ORF, adding a record or a GVF file must only add peptides and every added peptide must be attributable to the relaxation; restrictive switches must yield subsets whose entries belong to non-canonical backbones.',
+    note='Attribution of a miscleavage relaxation uses an upper bound of the peptide\'s missed cleavages (bonds that may be cut in some context). Strict rule domain. Open finding C05-alt-translation-denylist (SECT/W2F flags remove peptides equal to alt-translation forms of reference products) and the C03 header findings are tolerated by signature only. A run stopped by the 6 s tool timeout is inconclusive.')
+CHECKS['C06'] = dict(level='exploration', design='6/C06',
+    technique='property-based testing (Hypothesis): differential testing of one input under generated file partitions/orders, .idx subsets, index-directory reference (in-process) and --threads 2-5 / PYTHONHASHSEED values (console entry point in fresh processes) against a baseline run',
+    text='For generated multi-gene inputs with skipped transcripts, every variant run (records split over 2-4 GVFs in any order, with .idx on a subset, reference as generateIndex directory, --threads 2-5 through pathos, hash seeds 1/2/3/random) must write exactly the baseline sequence set and exit 0.',
+    note='Thread counts and hash seeds are sampled; the scheduler inside pathos is not controlled (results are gathered in order). Subprocess cost bounds the volume (quick: 64 inputs x 5 variant runs).')
 NOT_YET = {}
 
 def main():
